@@ -15,7 +15,9 @@ RULE = ("sets reached by sequences of addfilter / updatefilter / replacefilter /
 NAME_PIECES = ["rule", "é", "€", " ", "#", '"', "x", "1", ":", ";", "{", "Filter", "Description", "if false", "\\",
                # characters whose UTF-8 form ends in a byte that is white space in some 8-bit code page (0x85 NEL, 0xA0 NBSP) or is
                # itself an unusual blank: a name must come back whole, whatever its last character
-               "à", "Å", "ą", "Ġ", "丠", "\u00a0x", "x\u2003y", "\u0085z", "ı", "ﬀ"]
+               "à", "Å", "ą", "Ġ", "丠", "\u00a0x", "x\u2003y", "\u0085z", "ı", "ﬀ",
+               # text that changes under Unicode normalisation or case folding: it must come back code point for code point
+               "e\u0301", "\u212b", "\u2126", "\uf900", "q\u0323\u0307", "q\u0307\u0323", "ǅ", "İ", "ß", "ﬁ"]
 PREFIXES = [("# Filter: ", "# Description: "), ("#F:", "#D:"), ("# name = ", "# about = "), ("#§ ", "#¶ "),
             ("# [rule] ", "# (about) "), ("# name? ", "# desc+ "), ("# rule.* ", "# d|x: "), ("# \\d ", "# ^$ "), ("# Rule (auto): ", "# {1} ")]
 
